@@ -84,10 +84,33 @@ type txSpec struct {
 	Locks  []lockSpec `json:"locks"`
 	Prog   []instr    `json:"prog"`
 	Ensure bool       `json:"ensure,omitempty"` // Prepare calls WorldVirtualState().Ensure() like CallHandler does
-	// FailFirst: the first attempt runs the whole program (writes included) and then fails with
-	// ExecutionFailError; the executor resets the state (WorldVirtualState.Reset / WorldState.Reset)
-	// and retries.  Not modelled: the model sees the successful attempt only.
+	// Fails: one entry per failing first attempt (at most RetryCount = 2): the attempt executes
+	// that many instructions (writes included) and then returns ExecutionFailError; the executor
+	// resets the state (WorldVirtualState.Reset / WorldState.Reset) and retries.
+	Fails []int `json:"fails,omitempty"`
+	// FailFirst (older corpus files): the same as Fails = [len(Prog)]
 	FailFirst bool `json:"failFirst,omitempty"`
+}
+
+func (t *txSpec) fails() []int {
+	f := t.Fails
+	if t.FailFirst && len(f) == 0 {
+		f = []int{len(t.Prog)}
+	}
+	if len(f) > 2 {
+		f = f[:2]
+	}
+	out := make([]int, len(f))
+	for i, k := range f {
+		if k < 0 {
+			k = 0
+		}
+		if k > len(t.Prog) {
+			k = len(t.Prog)
+		}
+		out[i] = k
+	}
+	return out
 }
 
 // How the concurrent run is driven.
@@ -553,7 +576,12 @@ func (h *hh) Execute(ctx contract.Context, wcs state.WorldSnapshot, estimate boo
 	}
 	bal := func(as state.AccountState) int64 { return as.GetBalance().Int64() }
 	var obs []int64
-	for i := range b.bc.Txs[t.idx].Prog {
+	fails := b.bc.Txs[t.idx].fails()
+	limit := len(b.bc.Txs[t.idx].Prog)
+	if attempt < len(fails) {
+		limit = fails[attempt]
+	}
+	for i := 0; i < limit; i++ {
 		in := &b.bc.Txs[t.idx].Prog[i]
 		if in.Guard {
 			if bal(get(in.GA)) < in.GK {
@@ -584,9 +612,12 @@ func (h *hh) Execute(ctx contract.Context, wcs state.WorldSnapshot, estimate boo
 			}
 		}
 	}
-	pause() // before returning (the worker commits right after)
-	if b.bc.Txs[t.idx].FailFirst && attempt == 0 {
-		return nil, errors.ExecutionFailError.New("scripted failure of the first attempt")
+	pause() // before returning (the worker commits right after, or resets and retries)
+	if attempt < len(fails) {
+		if attempt%2 == 0 {
+			return nil, errors.ExecutionFailError.New("scripted failure of an attempt")
+		}
+		return nil, errors.CriticalRerunError.New("scripted failure of an attempt")
 	}
 	t.obs = obs
 	r := txresult.NewReceipt(ctx.Database(), ctx.Revision(), t.to)
@@ -1266,7 +1297,11 @@ func coqTx(t *txSpec) string {
 	for i := range t.Prog {
 		is = append(is, coqInstr(&t.Prog[i]))
 	}
-	return "(" + hxlib.CoqList(ls) + ", " + hxlib.CoqList(is) + ")"
+	var fs []string
+	for _, k := range t.fails() {
+		fs = append(fs, hxlib.CoqNat(k))
+	}
+	return "(" + hxlib.CoqList(ls) + ", " + hxlib.CoqList(is) + ", " + hxlib.CoqList(fs) + ")"
 }
 
 func coqCase(bc *blockCase, seq, conc observation, pickSeed int64) string {
@@ -1421,7 +1456,7 @@ func genHotBlock(r *rand.Rand) *blockCase {
 			}
 			locks = genLocks(r, prog, 1, 2)
 		}
-		bc.Txs = append(bc.Txs, txSpec{Locks: locks, Prog: prog, FailFirst: r.Intn(8) == 0})
+		bc.Txs = append(bc.Txs, txSpec{Locks: locks, Prog: prog, Fails: genFails(r, len(prog), 8)})
 	}
 	return bc
 }
@@ -1460,6 +1495,23 @@ func genWorldReadTarget(r *rand.Rand) *blockCase {
 	return bc
 }
 
+// failing first attempts: with probability 1/oneIn one or two of them, each running a prefix
+// of the program (often all of it) before it fails
+func genFails(r *rand.Rand, n, oneIn int) []int {
+	if r.Intn(oneIn) != 0 {
+		return nil
+	}
+	var f []int
+	for k := 0; k < 1+r.Intn(2); k++ {
+		if r.Intn(2) == 0 {
+			f = append(f, n)
+		} else {
+			f = append(f, r.Intn(n+1))
+		}
+	}
+	return f
+}
+
 // a block whose LAST transaction is retried after a reset; the transaction before
 // it often holds the world write lock (then the last virtual state is created from a
 // committed parent: base != nil), and the accounts are often empty
@@ -1483,7 +1535,7 @@ func genRetryBlock(r *rand.Rand) *blockCase {
 	}
 	bc.Txs = append(bc.Txs, mk([]int{2, 2, 1}[r.Intn(3)]))
 	last := mk([]int{0, 1, 1, 4}[r.Intn(4)])
-	last.FailFirst = true
+	last.Fails = genFails(r, len(last.Prog), 1)
 	bc.Txs = append(bc.Txs, last)
 	return bc
 }
@@ -1520,7 +1572,7 @@ func genBlock(r *rand.Rand, worldRead bool) *blockCase {
 		tx := txSpec{Locks: genLocks(r, prog, style, na), Prog: prog}
 		if !worldRead {
 			tx.Ensure = r.Intn(6) == 0
-			tx.FailFirst = r.Intn(8) == 0
+			tx.Fails = genFails(r, len(prog), 8)
 		}
 		bc.Txs = append(bc.Txs, tx)
 	}
